@@ -128,13 +128,15 @@ type scenario struct {
 	Cap        int     `json:"cap"`        // mailbox / channel capacity
 	// Stress: no hook is installed (the instrumentation itself slows Close down and hides narrow
 	// un-instrumented windows) and users run their operations in tight batches
-	Stress bool      `json:"stress"`
-	Plan   vlib.Plan `json:"plan"`
+	Stress bool `json:"stress"`
+	// KeepQueueOpen (pool): SetIsJobQueueClosedWhenClose(false) — Close() closes only the pool
+	KeepQueueOpen bool      `json:"keepQueueOpen"`
+	Plan          vlib.Plan `json:"plan"`
 }
 
 func (s scenario) String() string {
 	var sb strings.Builder
-	fmt.Fprintf(&sb, "%s cap=%d iters=%d after=%d closeAfter=%d stress=%v", kindNames[s.Kind], s.Cap, s.Iters, s.After, s.CloseAfter, s.Stress)
+	fmt.Fprintf(&sb, "%s cap=%d iters=%d after=%d closeAfter=%d stress=%v keepQueueOpen=%v", kindNames[s.Kind], s.Cap, s.Iters, s.After, s.CloseAfter, s.Stress, s.KeepQueueOpen)
 	if s.Directed >= 0 {
 		fmt.Fprintf(&sb, " directed=%s@%s", opNames[s.Directed], windowPoint(s.Kind, s.Directed))
 	} else if s.Directed == -2 {
@@ -298,6 +300,10 @@ func runScenario(s scenario) result {
 		p := worker.NewDefaultWorkerPool(q, nil)
 		sched.Track(q)
 		sched.Track(p)
+		if s.KeepQueueOpen {
+			p.SetIsJobQueueClosedWhenClose(false)
+			defer q.Close()
+		}
 		p.SetWorkerSizeMaximum(3).SetWorkerSizeStandBy(2).SetWorkerBatchSize(1).
 			SetSpawnWorkerDuration(50 * time.Microsecond).SetWorkerExpiryDuration(time.Millisecond).
 			SetScheduleRetryInterval(30 * time.Microsecond).
@@ -492,6 +498,7 @@ func genScenario(t *rapid.T, directedOnly bool) scenario {
 	s.After = rapid.IntRange(0, 4).Draw(t, "after")
 	s.CloseAfter = rapid.IntRange(0, s.Iters*nu).Draw(t, "closeAfter")
 	s.Cap = rapid.SampledFrom([]int{0, 1, 4}).Draw(t, "cap")
+	s.KeepQueueOpen = s.Kind == kPool && rapid.IntRange(0, 2).Draw(t, "keepQueueOpen") == 0
 	s.Directed = -1
 	if directedOnly || rapid.Bool().Draw(t, "directed") {
 		cands := []int{}
@@ -533,7 +540,7 @@ func TestDirected(t *testing.T) {
 	if vlib.Replaying() {
 		t.Skip()
 	}
-	reps := vlib.Pick(5, 50)
+	reps := vlib.Pick(5, 150)
 	for kind := 0; kind < numKinds; kind++ {
 		dirs := append([]int{}, opsOf(kind)...)
 		if kind == kQueue || kind == kPool {
@@ -550,7 +557,7 @@ func TestDirected(t *testing.T) {
 						users = append(users, []int{opsOf(kind)[u%len(opsOf(kind))]})
 					}
 				}
-				s := scenario{Kind: kind, Users: users, Iters: 5 + rep, After: 2, CloseAfter: rep % 4, Directed: op, Cap: []int{0, 1, 4}[rep%3]}
+				s := scenario{Kind: kind, Users: users, Iters: 5 + rep, After: 2, CloseAfter: rep % 4, Directed: op, Cap: []int{0, 1, 4}[rep%3], KeepQueueOpen: kind == kPool && rep%2 == 1}
 				vlib.S().Eval("directed")
 				res := runScenario(s)
 				if res.windowEntered {
@@ -573,7 +580,7 @@ func TestStress(t *testing.T) {
 	if vlib.Replaying() {
 		t.Skip()
 	}
-	reps := vlib.Pick(40, 400)
+	reps := vlib.Pick(40, 1000)
 	for kind := 0; kind < numKinds; kind++ {
 		for _, op := range opsOf(kind) {
 			for rep := 0; rep < reps; rep++ {
@@ -614,7 +621,7 @@ func TestReplayJSON(t *testing.T) {
 }
 
 func TestRandom(t *testing.T) {
-	vlib.Check(t, "random", 400, 3000, func(t *rapid.T) {
+	vlib.Check(t, "random", 400, 12000, func(t *rapid.T) {
 		s := genScenario(t, false)
 		st := vlib.S()
 		st.Eval("random")
